@@ -181,7 +181,7 @@ static inline void cmb_condition_subscribe(struct cmb_condition *cvp,
     cmb_assert_release(cvp != NULL);
     cmb_assert_release(rgp != NULL);
 
-    cmb_resourceguard_register(rgp, (struct cmb_resourceguard *)cvp);
+    cmb_resourceguard_register(rgp, &(cvp->guard));
 }
 
 /**
@@ -199,7 +199,7 @@ static inline bool cmb_condition_unsubscribe(struct cmb_condition *cvp,
     cmb_assert_release(cvp != NULL);
     cmb_assert_release(rgp != NULL);
 
-    return cmb_resourceguard_unregister(rgp, (struct cmb_resourceguard *)cvp);
+    return cmb_resourceguard_unregister(rgp, &(cvp->guard));
 }
 
 #endif /* CIMBA_CMB_CONDITION_H */
